@@ -47,6 +47,152 @@ def translate_gtal_guard():
     return cond[0], g.group(1).strip(), {k: v[0] for k, v in env.items() if k not in ("old_size", "new_size")}
 
 
+
+SEGHDR = os.path.join(REPO, "include/oneapi/tbb/detail/_segment_table.h")
+
+# Decision guards of the segment-table protocol, regenerated from the source text on every run.  The Lean model
+# (Model/C11Seg.lean) takes every branch of extend_table_if_necessary / create_segment / internal_grow /
+# internal_grow_to_at_least through these definitions, and the theorems are proved over them.
+# The extraction is by function: parameter names come from the signature and locals from their declarations, so renaming a
+# parameter or a local does not break the translation (the expression is alpha-renamed to the canonical names before it is
+# translated); a changed operator, constant or operand does change the generated definition.
+def _func(src, name):
+    """(parameter names, body text) of the first definition of member function `name`"""
+    m = re.search(r"\b%s\s*\(([^)]*)\)\s*(?:const\s*)?(?:noexcept\s*)?\{" % re.escape(name), src)
+    if not m:
+        raise cexpr.CExprError("function %s not found" % name)
+    params = [re.findall(r"(\w+)\s*$", p.strip())[0] for p in m.group(1).split(",") if p.strip() and "..." not in p]
+    depth, k = 1, m.end()
+    while depth and k < len(src):
+        depth += {"{": 1, "}": -1}.get(src[k], 0)
+        k += 1
+    return params, src[m.end():k]
+
+
+def _alpha(expr, ren):
+    for a, b in ren.items():
+        if a and a != b:
+            expr = re.sub(r"\b%s\b" % re.escape(a), b, expr)
+    return expr
+
+
+def _seg_guards_extract():
+    seg = re.sub(r"/\*.*?\*/", "", open(SEGHDR).read(), flags=re.S)
+    seg = re.sub(r"//[^\n]*", "", seg)
+    vec = re.sub(r"/\*.*?\*/", "", open(HDR).read(), flags=re.S)
+    vec = re.sub(r"//[^\n]*", "", vec)
+    out = {}
+
+    def need(m, what):
+        if not m:
+            raise cexpr.CExprError("source pattern of guard %s not found" % what)
+        return m
+
+    # extend_table_if_necessary(table, start_index, end_index)
+    try:
+        (tb, st, en), body = _func(seg, "extend_table_if_necessary")
+        m = need(re.search(r"if\s*\(\s*%s\s*==\s*my_embedded_table\s*&&\s*([^)]*?)\s*\)\s*\{" % tb, body), "xNeed")
+        out["xNeed"] = _alpha(m.group(1), {en: "end_index", st: "start_index"})
+        m = need(re.search(r"\{\s*if\s*\(\s*([^)]*?)\s*\)\s*\{", body[m.end() - 1:]), "xSelf")
+        out["xSelf"] = _alpha(m.group(1), {en: "end_index", st: "start_index"})
+    except cexpr.CExprError as e:
+        out.setdefault("xNeed", e); out.setdefault("xSelf", e)
+    # allocate_long_table(embedded_table, start_index)
+    try:
+        (et, st), body = _func(vec, "allocate_long_table")
+        m = need(re.search(r"for\s*\(\s*segment_index_type\s+(\w+)\s*=\s*0\s*;\s*([^;]*?)\s*;\s*\+\+\1\s*\)", body), "altWait")
+        out["altWait"] = _alpha(m.group(2).replace("this->segment_base(%s)" % m.group(1), "segment_base_i"), {st: "start_index"})
+    except cexpr.CExprError as e:
+        out["altWait"] = e
+    # create_segment(table, seg_index, index)
+    try:
+        (tb, sg, ix), body = _func(vec, "create_segment")
+        fbm = need(re.search(r"size_type\s+(\w+)\s*=\s*this->my_first_block\.load\(std::memory_order_relaxed\)\s*;", body), "csFirst")
+        fb = fbm.group(1)
+        ren = {tb: "table", sg: "seg_index", ix: "index", fb: "first_block"}
+        m = need(re.search(r"if\s*\(\s*([^)]*?)\s*\)\s*\{", body[fbm.end():]), "csFirst")
+        out["csFirst"] = _alpha(m.group(1), ren)
+        m = need(re.search(r"size_type\s+(\w+)\s*=\s*this->segment_base\(%s\)\s*;\s*if\s*\(\s*([^)]*?)\s*\)\s*\{" % sg, body), "csOwner")
+        out["csOwner"] = _alpha(m.group(2), dict(ren, **{m.group(1): "offset"}))
+        m = need(re.search(r"size_type\s+(\w+)\s*=\s*(%s\s*==\s*this->my_embedded_table\s*\?[^;]+);" % tb, body), "csTagEnd")
+        out["csTagEnd"] = _alpha(m.group(2), ren).replace("table == this->my_embedded_table", "table_is_embedded").replace("this->", "")
+        ext = need(re.search(r"this->extend_table_if_necessary\(%s\s*,[^;]*;" % tb, body), "csFill")
+        loops = re.findall(r"for\s*\(\s*size_type\s+(\w+)\s*=\s*1\s*;\s*([^;]*?)\s*;\s*\+\+\1\s*\)\s*\{\s*([^}]*)\}", body[ext.end():])
+        if len(loops) < 2:
+            raise cexpr.CExprError("source pattern of guards csFill / csMirror not found")
+        (v1, c1, b1), (v2, c2, b2) = loops[0], loops[1]
+        if not re.search(r"%s\s*\[\s*%s\s*\]\s*\.store" % (tb, v1), b1) or "my_embedded_table" not in b2:
+            raise cexpr.CExprError("the two fill loops of the first-block winner are not `table[i].store` then `my_embedded_table[i].store`")
+        out["csFill"] = _alpha(c1, dict(ren, **{v1: "i"})).replace("this->", "")
+        out["csMirror"] = _alpha(c2, dict(ren, **{v2: "i"})).replace("this->", "")
+    except cexpr.CExprError as e:
+        for k in ("csFirst", "csOwner", "csTagEnd", "csFill", "csMirror"):
+            out.setdefault(k, e)
+    # internal_grow(start_idx, end_idx, args...)
+    try:
+        (sa, ea), body = _func(vec, "internal_grow")
+        sgm = need(re.search(r"size_type\s+(\w+)\s*=\s*this->segment_index_of\(\s*%s\s*-\s*1\s*\)\s*;" % ea, body), "growEager")
+        sg = sgm.group(1)
+        ren = {sa: "start_idx", ea: "end_idx", sg: "seg_index"}
+        m = need(re.search(r"if\s*\(\s*(%s\s*[<>=!]+\s*this->my_first_block\.load\(std::memory_order_relaxed\))\s*\)" % sg, body), "growEager")
+        out["growEager"] = _alpha(m.group(1), ren).replace("this->my_first_block.load(std::memory_order_relaxed)", "first_block")
+        m = need(re.search(r"size_type\s+(\w+)\s*=\s*this->segment_base\(%s\)\s*;\s*if\s*\(\s*([^{]*?)\s*\)\s*\{" % sg, body), "growOwns")
+        out["growOwns"] = _alpha(m.group(2), dict(ren, **{m.group(1): "first_element"}))
+    except cexpr.CExprError as e:
+        out.setdefault("growEager", e); out.setdefault("growOwns", e)
+    # internal_grow_to_at_least(new_size, args...)
+    try:
+        (ns,), body = _func(vec, "internal_grow_to_at_least")
+        esm = need(re.search(r"size_type\s+(\w+)\s*=\s*this->segment_index_of\(\s*%s\s*-\s*1\s*\)\s*;" % ns, body), "gtalLong")
+        es = esm.group(1)
+        m = need(re.search(r"if\s*\(\s*(%s\s*[<>=!]+\s*this->pointers_per_embedded_table)\s*&&\s*this->get_table\(\)\s*==\s*this->my_embedded_table\s*\)" % es, body), "gtalLong")
+        out["gtalLong"] = _alpha(m.group(1), {es: "end_segment"}).replace("this->", "")
+    except cexpr.CExprError as e:
+        out["gtalLong"] = e
+    return out
+
+
+def _seg_guard_specs():
+    u = lambda *names: {n: (n, "u64") for n in names}
+    return [
+        ("xNeed", "(end_index : Nat) : Bool", u("end_index", "start_index"), "bool", "(decide (end_index > (8 : Nat)))"),
+        ("xSelf", "(start_index : Nat) : Bool", u("start_index", "end_index"), "bool", "(decide (start_index ≤ (8 : Nat)))"),
+        ("altWait", "(segment_base_i start_index : Nat) : Bool", u("segment_base_i", "start_index"), "bool", "(decide (segment_base_i < start_index))"),
+        ("csFirst", "(seg_index first_block : Nat) : Bool", u("seg_index", "first_block"), "bool", "(decide (seg_index < first_block))"),
+        ("csOwner", "(index offset : Nat) : Bool", u("index", "offset"), "bool", "(decide (index = offset))"),
+        ("csTagEnd", "(table_is_embedded : Bool) (first_block : Nat) : Nat", dict(u("first_block"), table_is_embedded=("table_is_embedded", "bool")), "u64",
+         "(if table_is_embedded then (3 : Nat) else first_block)"),
+        ("csFill", "(i first_block : Nat) : Bool", u("i", "first_block"), "bool", "(decide (i < first_block))"),
+        ("csMirror", "(i first_block : Nat) : Bool", u("i", "first_block"), "bool", "((decide (i < first_block)) && (decide (i < (3 : Nat))))"),
+        ("growEager", "(seg_index first_block : Nat) : Bool", u("seg_index", "first_block"), "bool", "(decide (seg_index > first_block))"),
+        ("growOwns", "(first_element start_idx end_idx : Nat) : Bool", u("first_element", "start_idx", "end_idx"), "bool",
+         "((decide (first_element ≥ start_idx)) && (decide (first_element < end_idx)))"),
+        ("gtalLong", "(end_segment : Nat) : Bool", u("end_segment"), "bool", "(decide (end_segment ≥ (3 : Nat)))"),
+    ]
+
+
+def translate_seg_guards(ck, consts):
+    cc = {"embedded_table_size": consts["embeddedTableSize"], "pointers_per_embedded_table": consts["pointersPerEmbeddedTable"]}
+    try:
+        found = _seg_guards_extract()
+    except (OSError, cexpr.CExprError) as e:
+        found = {}
+        ck.oblige("gen:segment-table-guards", "generated", False, "cannot read the sources: %s" % e)
+    out = ""
+    for name, params, env, want, default in _seg_guard_specs():
+        try:
+            cxx = found.get(name, cexpr.CExprError("guard not extracted"))
+            if isinstance(cxx, Exception):
+                raise cxx
+            lean = cexpr.translate(cxx, env, consts=cc, want=want)[0]
+            ck.oblige("gen:%s-translated" % name, "generated", True, "C++: %s" % " ".join(cxx.split()))
+        except cexpr.CExprError as e:
+            ck.oblige("gen:%s-translated" % name, "generated", False, "translator cannot read the guard: %s" % e)
+            lean = default
+        out += "def %s %s := %s\n" % (name, params, lean)
+    return out
+
+
 def gen(ck):
     exe = cxx_build("C11", "consts", ["harness/c11/consts.cpp"], flags=["-O0", "-fno-access-control"])
     rc, out, err = sh([exe], timeout=60)
@@ -62,6 +208,7 @@ def gen(ck):
         # keep the library building: an opaque guard about which nothing can be proved
         lean = "(decide (old_size < new_size ∧ (old_size + new_size) % 2 = 0))"
     body += "def gtalGuard (old_size new_size : Nat) : Bool := %s\n" % lean
+    body += translate_seg_guards(ck, c)
     gen_write("C11", body)
     ck.oblige("gen:sizeTypeBits=64", "generated", c.get("sizeTypeBits") == 64, c)
 
@@ -409,6 +556,335 @@ def run_shim(ck):
                           {"engine": "E-SHIM", "harness": "harness/c11/shim.cpp", "scenario": sc, "schedule": r["sched"], "monitor": r["mon"]})
 
 
+
+# ---------------------------------------------------------------------------------------------
+# E-SHIM on the segment-table protocol: every access to the table words replays on the Lean model SegVec
+# ---------------------------------------------------------------------------------------------
+SEG_STEP_NOTES = {"alloc", "allocfail", "free", "talloc", "tallocfail", "tfree", "ctor", "ctorfail"}
+SEG_FLAGS = ["-O1", "-g", "-fno-access-control"]
+
+
+def seg_exe():
+    return cxx_build("C11", "segshim", ["harness/c11/segshim.cpp", common.SHIM_SRC, STUBS], flags=SEG_FLAGS + common.SHIM_FLAGS)
+
+
+def sc_text(sc):
+    return "".join("prog " + " ".join("%s %d" % (k, a if k != "push" else 0) for k, a in p) + "\n" for p in sc)
+
+
+def parse_seg_runs(out):
+    runs, cur = [], None
+    for l in out.split("\n"):
+        w = l.split()
+        if not w:
+            continue
+        if w[0] == "run":
+            cur = {"ev": [], "res": {}, "mon": "", "sched": [], "final": "", "known": "", "crash": ""}
+        elif w[0] == "CRASH":
+            if cur is None:
+                cur = {"ev": [], "res": {}, "mon": "", "sched": [], "final": "", "known": "", "crash": ""}
+            cur["crash"] = l.strip()
+        elif cur is None:
+            continue
+        elif w[0] == "e":
+            cur["ev"].append((int(w[1]), " ".join(w[2:])))
+        elif w[0] == "n":
+            if w[2] in SEG_STEP_NOTES:
+                cur["ev"].append((int(w[1]), "note " + " ".join(w[2:])))
+            elif w[2] == "ret":
+                cur["res"].setdefault(int(w[1]), []).append("n" if (w[3] == "0" and w[4] == "0") else "r:%s:%s" % (w[3], w[4]))
+            elif w[2] == "exc":
+                cur["res"].setdefault(int(w[1]), []).append("x:" + w[3])
+        elif w[0] == "final":
+            cur["final"] = l.strip()
+        elif w[0] == "mon":
+            cur["mon"] = " ".join(w[1:])
+        elif w[0] == "known":
+            cur["known"] = " ".join(w[1:])
+        elif w[0] == "sched":
+            cur["sched"] = w[1:]
+        elif w[0] == "end":
+            runs.append(cur)
+            cur = None
+    return runs
+
+
+def seg_replay(sc, runs, faults=()):
+    """Replay every run on the Lean model (driver c11seg).  Adds to each run: diff (None = every write/RMW/allocator call/
+    construction/result/final state agrees), skipped (implementation-side plain loads the model does not have), stronger
+    (accesses with a stronger memory order than the model's), and for deadlocked runs what the model says about every thread
+    (stuck: F finished / S spinning / P can make progress; pcs)."""
+    lines, marks = [], []
+    for r in runs:
+        lines.append("reset")
+        for kind, k in faults:
+            lines.append("fault %s %d" % (kind, k))
+        for p in sc:
+            lines.append("prog " + " ".join("%s %d" % (k, a if k != "push" else 0) for k, a in p))
+        start = len(lines)
+        for t, txt in r["ev"]:
+            lines.append("x %d %s" % (t, txt))
+        for t in range(len(sc)):
+            lines.append("res %d" % t)
+        lines += ["final", "flags", "pcs", "stuck"]
+        marks.append((start, len(r["ev"])))
+    mo = drv("c11seg", "\n".join(lines) + "\n")
+    for r, (start, n) in zip(runs, marks):
+        d = None
+        r["skipped"] = r["stronger"] = 0
+        for i in range(n):
+            o = mo[start + i]
+            if o.startswith("skip"):
+                r["skipped"] += 1
+            elif o.startswith("ok+"):
+                r["stronger"] += 1
+            elif o != "ok":
+                d = "access %d (thread %d): implementation `%s`, model `%s`" % (i, r["ev"][i][0], r["ev"][i][1], o)
+                break
+        dead = "DEADLOCK" in r["mon"] or bool(r["crash"])
+        base = start + n
+        if d is None and not dead:
+            for t in range(len(sc)):
+                m = mo[base + t].split()
+                if m[0] != "0":
+                    d = "thread %d: the model has %s calls left when the implementation's trace ends" % (t, m[0]); break
+                if m[1:] != r["res"].get(t, []):
+                    d = "thread %d call results: implementation %s, model %s" % (t, r["res"].get(t, []), m[1:]); break
+            if d is None and mo[base + len(sc)] != r["final"]:
+                d = "final state: implementation `%s`, model `%s`" % (r["final"], mo[base + len(sc)])
+        r["flags"] = mo[base + len(sc) + 1]
+        r["pcs"] = mo[base + len(sc) + 2]
+        r["stuck"] = mo[base + len(sc) + 3].split()
+        if d is None and ("oob=1" in r["flags"] or "wild=1" in r["flags"] or "badTab=1" in r["flags"]):
+            d = "model error flags after the replay: " + r["flags"]
+        r["diff"] = d
+    return runs
+
+
+SEG_CORPUS = [
+    [[("to", 5), ("push", 0)], [("by", 3), ("to", 20)], [("push", 0), ("by", 9)]],
+    [[("to", 9), ("to", 9)], [("to", 9), ("by", 1)], [("by", 8)]],            # embedded->long switch raced by three growers
+    [[("by", 16)], [("push", 0), ("push", 0), ("push", 0)], [("to", 17)]],
+    [[("push", 0)], [("push", 0)], [("push", 0)], [("by", 2)]],               # first-block election, 4 threads
+    [[("by", 20)], [("push", 0), ("push", 0)], [("push", 0), ("by", 3)]],     # first block of 32: the election winner extends the table
+    [[("by", 5)], [("by", 20)], [("push", 0)], [("to", 12)]],                 # crosser waits for embedded slots 0..2
+    [[("push", 0), ("push", 0), ("by", 17)], [("to", 30)], [("push", 0), ("by", 9)]],
+    [[("by", 9)], [("by", 9)], [("to", 9)]],
+    [[("push", 0)] * 9, [("push", 0)] * 9],                                    # the table switch is done by a push_back (index 8)
+]
+
+
+def seg_scenarios(ck, n):
+    rng = ck.rng
+    bnd = [0, 1, 2, 3, 4, 5, 7, 8, 9, 10, 15, 16, 17, 33]
+    scs = list(SEG_CORPUS)
+    for _ in range(n):
+        T = rng.choice([2, 3, 3, 4])
+        scs.append([[(rng.choice(["push", "by", "to"]), rng.choice(bnd)) for _ in range(rng.randrange(1, 4))] for _ in range(T)])
+    return scs
+
+
+def seg_cover(ck, r):
+    txt = " ".join(e for _, e in r["ev"])
+    ck.count(1, ("seg", "switch" if "cas tptr rel E L" in txt else "-", "loser-table" if "note tfree" in txt else "-",
+                 "fb-loser" if "note free" in txt else "-", "waiter" if "load failed" in txt else "-",
+                 "fill" if re.search(r"store [EL]\d*\.\d+ rel A\d+ ", txt) else "-"))
+
+
+def run_seg(ck):
+    """The real concurrent_vector under the controlled scheduler: every access to my_size / my_first_block / my_segment_table /
+    embedded and long table slots / my_segment_table_allocation_failed, every allocator call and every element construction is
+    replayed, in order, on the Lean model SegVec (kind, variable, memory order, values, CAS outcome), and the call results and the
+    final table are compared.  Implementation-side monitors (independent of the model): address stability after every call,
+    constructed exactly once at an address the table maps, one published allocation per segment / no leak, tiling,
+    grow_to_at_least(n) (waiting path) returns with every segment below n present, destructor frees everything once."""
+    exe = seg_exe()
+    quick = ck.tier == "quick"
+    scs = seg_scenarios(ck, 14 if quick else 150)
+    bad_mon, bad_corr, known, nruns, skipped, stronger, dfs_runs = [], [], [], 0, 0, 0, 0
+    size_corr = []
+    for si, sc in enumerate(scs):
+        rc, out, err = sh([exe, "rand", str(ck.seed * 1000 + si), "12" if quick else "60"], input=sc_text(sc), timeout=900)
+        runs = seg_replay(sc, parse_seg_runs(out))
+        for r in runs:
+            nruns += 1
+            ck.traces_validated += 1
+            skipped += r["skipped"]; stronger += r["stronger"]
+            seg_cover(ck, r)
+            if r["mon"] != "ok" or r["crash"]:
+                bad_mon.append((sc, r))
+            if r["diff"]:
+                bad_corr.append((sc, r))
+            if r["known"]:
+                known.append((sc, r))
+        if rc not in (0, 1, 3) and not runs:
+            bad_mon.append((sc, {"mon": "harness crashed rc=%d %s" % (rc, err[-200:]), "sched": [], "crash": "rc=%d" % rc, "diff": None}))
+        if len(ck.samples) < 12 and runs:
+            ck.sample({"segment-table scenario": [[list(o) for o in p] for p in sc], "events": len(runs[0]["ev"]), "first events": [e for _, e in runs[0]["ev"][:6]],
+                       "final": runs[0]["final"]}, cap=12)
+    # bounded-preemption DFS: monitors on every schedule, model replay on the printed prefix of the enumeration
+    for sc in SEG_CORPUS[: (3 if quick else 9)]:
+        rc, out, err = sh([exe, "dfsp", "1" if quick else "2", "150" if quick else "3000"], input=sc_text(sc), timeout=1500)
+        runs = seg_replay(sc, parse_seg_runs(out))
+        for r in runs:
+            dfs_runs += 1
+            ck.traces_validated += 1
+            seg_cover(ck, r)
+            if r["mon"] != "ok" or r["crash"]:
+                bad_mon.append((sc, r))
+            if r["diff"]:
+                bad_corr.append((sc, r))
+        rc, out, err = sh([exe, "dfs", "1" if quick else "2", "4000" if quick else "200000"], input=sc_text(sc), timeout=1500)
+        m = re.search(r"summary runs=(\d+) bad=(\d+)", out)
+        if m:
+            dfs_runs += int(m.group(1))
+        if rc != 0 or not m or m.group(2) != "0":
+            rs = seg_replay(sc, parse_seg_runs(out))
+            bad_mon.append((sc, rs[-1] if rs else {"mon": "harness rc=%d" % rc, "sched": [], "crash": "", "diff": None}))
+    ck.evaluations += dfs_runs
+    ck.extra["seg_schedules"] = {"random_runs": nruns, "dfs_runs": dfs_runs, "unmatched_plain_loads_tolerated": skipped, "stronger_orders_tolerated": stronger}
+    ck.oblige("corr:every access to the segment-table words, allocator call and element construction under E-SHIM replays on the Lean model "
+              "SegVec (kind, variable, memory order, values, CAS outcome, results, final table)", "correspondence", not bad_corr,
+              "" if not bad_corr else "%s | scenario %s | schedule %s" % (bad_corr[0][1]["diff"], bad_corr[0][0], " ".join(bad_corr[0][1]["sched"][:200])))
+    real_bad = [(sc, r) for sc, r in bad_mon]
+    ck.oblige("monitor:segment table (address stable after every call, constructed once where the table maps, one published allocation per "
+              "segment, no leak, tiling, grow_to_at_least waits, destructor frees once, no deadlock)", "correspondence", not real_bad,
+              "" if not real_bad else "%s | scenario %s" % (real_bad[0][1]["mon"] or real_bad[0][1]["crash"], real_bad[0][0]))
+    for sc, r in real_bad[:1]:
+        what = r["mon"] or r["crash"]
+        ck.counterexample("segtable:" + "-".join(what.split()[1:4]), "segment table: %s under schedule %s" % (what, " ".join(r["sched"][:160])),
+                          {"engine": "E-SHIM-SEG", "harness": "harness/c11/segshim.cpp", "scenario": sc, "schedule": r["sched"], "monitor": what})
+    ck.extra["seg_corr_broken_scenarios"] = [sc for sc, _ in bad_corr[:3]]
+    if known:
+        sc, r = known[0]
+        ck.extra["gtal_grow_path_observed"] = len(known)
+        ck.counterexample(r["known"].split()[0], "%s (scenario %s, schedule %s)" % (" ".join(r["known"].split()[1:]), sc, " ".join(r["sched"][:80])),
+                          {"engine": "E-SHIM-SEG", "harness": "harness/c11/segshim.cpp", "scenario": sc, "schedule": r["sched"], "monitor": r["known"]})
+    return exe
+
+
+def seg_search(ck, exe, scs):
+    """failing-input search used when a correspondence broke and neither the monitors nor the fault schedules produced a failing
+    schedule yet: more seeds and a deeper DFS with the implementation monitors (bounded: about a minute)"""
+    for sc in scs:
+        for seed in range(8):
+            rc, out, err = sh([exe, "rand", str(7000 + seed), "25"], input=sc_text(sc), timeout=600)
+            for r in parse_seg_runs(out):
+                if r["mon"] != "ok" or r["crash"]:
+                    return sc, r
+        rc, out, err = sh([exe, "dfs", "2", "8000"], input=sc_text(sc), timeout=900)
+        for r in parse_seg_runs(out):
+            if r["mon"] != "ok" or r["crash"]:
+                return sc, r
+    return None
+
+
+SEG_FAULT_CORPUS = [
+    [[("push", 0)] * 10 + [("by", 100)]],
+    [[("by", 40)], [("by", 40)]],
+    [[("push", 0), ("push", 0), ("by", 17)], [("to", 30)], [("push", 0), ("by", 9)]],
+    [[("by", 3), ("by", 200)], [("push", 0), ("push", 0), ("push", 0)]],
+    [[("push", 0)], [("push", 0)], [("push", 0)], [("by", 2)]],
+    # the long-table allocation throws while other growers already wait for the table switch (extend_table_if_necessary's
+    # waiting branch) -- they must be released by my_segment_table_allocation_failed
+    [[("by", 20)], [("push", 0), ("push", 0)], [("push", 0)]],
+    [[("push", 0)], [("by", 20)], [("push", 0), ("by", 3)], [("push", 0)]],
+    [[("push", 0)] * 9, [("push", 0)] * 9, [("by", 2)]],
+    [[("by", 20)], [("to", 12)]],
+]
+
+
+def seg_fault_key(kind, r):
+    """finding key of a failing fault run"""
+    txt = r["mon"] or r["crash"]
+    ev = r["ev"]
+    first_block = False
+    for i, (t, e) in enumerate(ev):
+        if e.startswith("note allocfail"):
+            nxt = [e2 for (t2, e2) in ev[i + 1:] if t2 == t]
+            first_block = bool(nxt) and nxt[0].startswith("cas ")
+    if "DEADLOCK" in txt:
+        if "P" in r["stuck"] and not r.get("diff"):
+            return "deadlock-not-in-model"          # the replay agrees up to here and the model can still move: the implementation
+                                                    # lost a wake-up / a release (if the replay already diverged, the model's state
+                                                    # says nothing about this run and the run is attributed by its fault kind only)
+        if kind == "table":
+            return "fault:table-alloc-throw:gtal-waiter:deadlock" if "wSpinTab" in r["pcs"] else "fault:table-alloc-throw:deadlock"
+        if kind == "ctor":
+            return "fault:ctor-throw:deadlock"
+        return "fault:alloc-throw:%s:deadlock" % ("first-block" if first_block else "segment")
+    if r["crash"]:
+        return "fault:%s-throw:crash" % kind
+    if kind == "alloc" and first_block and ("address of element" in txt or "inaccessible" in txt or "lost its value" in txt) and "lost=0" not in r["flags"]:
+        return "fault:alloc-throw:first-block:overwrites-published-segment"
+    return "fault:%s-throw:monitor" % kind
+
+
+def run_seg_faults(ck, exe):
+    """Fault plans on the segment-table protocol: the k-th element-storage allocation, the k-th long-table allocation or the k-th
+    element construction throws, under controlled interleavings; every run (the failure tagging, the allocation-failed flag, the
+    waiters' re-checks) is replayed on the Lean model with the same fault plan.  An implementation-side deadlock is attributed
+    with the model: if the model's threads can still move the implementation lost a release (violation); if the model is stuck
+    too it is one of the listed known findings of the failure clauses."""
+    quick = ck.tier == "quick"
+    bad_corr, bad, fired, runs_n = [], [], 0, 0
+    for si, sc in enumerate(SEG_FAULT_CORPUS):
+        plans = [("alloc", "VERIF_FAULT_ALLOC", k) for k in ((1, 2, 3) if quick else range(1, 7))]
+        plans += [("table", "VERIF_FAULT_TABLE", k) for k in ((1, 2) if quick else (1, 2, 3))]
+        total = sum((1 if k == "push" else a) for p in sc for k, a in p)
+        ks = sorted(set([1, 2, 3, 5, 9, total] + ([ck.rng.randrange(1, total + 1) for _ in range(2)] if quick else [ck.rng.randrange(1, total + 1) for _ in range(12)])))
+        plans += [("ctor", "VERIF_FAULT_CTOR", k) for k in ks if 1 <= k <= total]
+        for kind, var, k in plans:
+            env = dict(os.environ); env[var] = str(k)
+            rc, out, err = sh([exe, "rand", str(ck.seed * 100 + si), "4" if quick else "16"], input=sc_text(sc), timeout=600, env=env)
+            rs = seg_replay(sc, parse_seg_runs(out), faults=((kind, k),))
+            for r in rs:
+                runs_n += 1
+                ck.traces_validated += 1
+                fired += 1 if any("fail" in e for _, e in r["ev"]) else 0
+                ck.count(1, ("segfault", kind, "fired" if any("fail" in e for _, e in r["ev"]) else "nofire", r["mon"].split()[0] if r["mon"] else "crash",
+                             "waiter-released" if any(x == "x:1" for v in r["res"].values() for x in v) and kind == "table" else "-"))
+                if r["diff"]:
+                    bad_corr.append((sc, kind, k, r))
+                if r["mon"] != "ok" or r["crash"]:
+                    bad.append((sc, kind, k, r, seg_fault_key(kind, r)))
+            if rc not in (0, 1, 3) and not rs:
+                bad.append((sc, kind, k, {"mon": "", "crash": "harness rc=%d %s" % (rc, err[-200:]), "sched": [], "ev": [], "stuck": [], "pcs": "", "flags": ""}, "fault:%s-throw:crash" % kind))
+    # guided: every schedule (bounded preemption) of "the grower that must switch the table gets bad_alloc for the long table while
+    # the others already wait for the switch": the waiters must be released by my_segment_table_allocation_failed
+    guided = 0
+    # (scenarios in which the unchanged code has no deadlock under any schedule: every call's range is larger than the embedded table,
+    #  so the first grower is the only one that allocates anything and everybody else waits for the table switch)
+    for sc in ([[("by", 40)], [("by", 40)]], [[("by", 40)], [("by", 12)], [("by", 40)]]):
+        env = dict(os.environ); env["VERIF_FAULT_TABLE"] = "1"
+        rc, out, err = sh([exe, "dfs", "2", "2500" if quick else "60000"], input=sc_text(sc), timeout=900, env=env)
+        m = re.search(r"summary runs=(\d+) bad=(\d+)", out)
+        guided += int(m.group(1)) if m else 0
+        rs = seg_replay(sc, parse_seg_runs(out), faults=(("table", 1),))
+        for r in rs:
+            if r["mon"] != "ok" or r["crash"]:
+                bad.append((sc, "table", 1, r, seg_fault_key("table", r)))
+        if (rc not in (0, 1, 3)) and not rs:
+            bad.append((sc, "table", 1, {"mon": "", "crash": "harness rc=%d %s" % (rc, err[-200:]), "sched": [], "ev": [], "stuck": [], "pcs": "", "flags": ""}, "fault:table-throw:crash"))
+    ck.evaluations += guided
+    ck.extra["seg_fault_runs"] = {"runs": runs_n, "faults_fired": fired, "guided_table_failure_schedules": guided}
+    ck.oblige("corr:fault runs (failure tagging, my_segment_table_allocation_failed, waiters' re-checks) replay on the Lean model with the same fault plan",
+              "correspondence", not bad_corr,
+              "" if not bad_corr else "%s | scenario %s fault %s=%d | schedule %s" % (bad_corr[0][3]["diff"], bad_corr[0][0], bad_corr[0][1], bad_corr[0][2], " ".join(bad_corr[0][3]["sched"][:200])))
+    keyed, seen = [], set()
+    for sc, kind, k, r, key in bad:
+        if key not in seen:
+            seen.add(key)
+            keyed.append((key, sc, kind, k, r))
+    ck.oblige("monitor:segment-table fault schedules: every call returns or throws (a deadlock must be one the model has too), completed elements keep "
+              "value and address, destructible", "correspondence", not bad,
+              "" if not bad else "%s | %s" % (bad[0][4], (bad[0][3]["mon"] or bad[0][3]["crash"])[:200]), cex_keys=[k for k, *_ in keyed])
+    for key, sc, kind, k, r in keyed:
+        var = {"alloc": "VERIF_FAULT_ALLOC", "table": "VERIF_FAULT_TABLE", "ctor": "VERIF_FAULT_CTOR"}[kind]
+        ck.counterexample(key, "scenario %s with %s=%d: %s; model says threads are %s at %s" % (sc, var, k, (r["mon"] or r["crash"])[:100], "".join(r["stuck"]), r["pcs"]),
+                          {"engine": "E-SHIM-SEG", "harness": "harness/c11/segshim.cpp", "scenario": sc, "schedule": r["sched"], "env": {var: str(k)},
+                           "monitor": r["mon"] or r["crash"]})
+
 FAULT_CORPUS = [
     [[("push", 0)] * 10 + [("by", 100)]],                                  # multi-segment grow_by after the first block
     [[("by", 40)], [("by", 40)]],
@@ -494,16 +970,28 @@ def run_probes(ck, exe):
 def run(ck):
     ck.rule = ("E-PURE: boundary-biased 64-bit indices (all 2^k, 2^k±1,±2; random per bit-length; thorough adds every index < 2^20), every k<64 for "
                "segment_base/size, element addresses of real vectors for several first-block sizes; E-REAL: random 2-4 thread grower scenarios and "
-               "grow_to_at_least (old,new) pairs incl. >= 2^31 (thorough: >= 2^32). distinct = distinct (operation, outcome class) pairs")
+               "grow_to_at_least (old,new) pairs incl. >= 2^31 (thorough: >= 2^32); E-SHIM-SEG: corpus + random 2-4 thread scenarios (push/grow_by/grow_to_at_least with "
+               "deltas around 2^k and the embedded-table limit 8), random and bounded-preemption DFS schedules, fault plans (k-th allocation / long-table "
+               "allocation / construction throws). distinct = distinct (operation, outcome class) pairs / (switch, loser table, election loser, waiter, fill) classes")
     ck.assumptions += [
-        "exception paths (throwing element constructor / allocator) are covered by fault schedules with implementation-side monitors, not by theorems",
-        "model covers: index arithmetic, element address map, the my_size word (fetch_add / CAS-max) and the grow_to_at_least guard (generated from source)",
-        "not modelled (checked only by the implementation monitors on explored runs): segment allocation election and waits in create_segment, "
-        "embedded->long table switch, exception paths (failure tagging / zero-fill)",
-        "grow_to_at_least(n) waits for *allocation* of segments claimed by concurrent calls, not for their construction (documented oneTBB behaviour); "
-        "the theorem is about the range the call itself claimed",
-        "size_t sums are assumed not to wrap (sizes <= max_size)"]
-    ck.trusted += ["checks/cexpr.py + checks/c11.py:translate_gtal_guard (C++ guard -> Lean)", "harness/c11/*.cpp (observation of the real headers)",
+        "model SegVec (Model/C11Seg.lean) covers, at atomic-access granularity: my_size, my_first_block, my_segment_table (embedded vs long table, the CAS "
+        "switch, losers destroying their table), the embedded and long table slots, my_segment_table_allocation_failed, first-block election "
+        "(allocate, CAS table[0], loser deallocates), segment owners, waiters, failure tagging, internal_subscript's wait/failed check, the grow path, "
+        "grow_to_at_least's CAS-max loop and its wait for segments, size()/capacity(); decision guards are regenerated from the source text",
+        "theorems for the failure-free system (DInv, 30 invariants, any threads/programs/schedules): slot write-once, table switch preserves pointers, "
+        "no stale-embedded publication lost, element address stable/injective/in bounds, constructed once, one allocation per segment, one published "
+        "first block, no leak; for ANY fault plan: construct only through an observed real pointer, no null table, no embedded out-of-bounds, "
+        "table-switch waiters released by the failure flag; the known findings of the failure clauses are exhibited on the model (witness theorems)",
+        "grow_to_at_least(n): the property text asks for 'all elements below n constructed'; the code guarantees only 'segments below n allocated' and only "
+        "on its waiting path (gtal_waits_for_all_partial + two negation witnesses; KNOWN_FINDINGS gtal-grow-path-no-wait)",
+        "exception paths: failure tagging / allocation-failed flag are modelled and replayed access by access; the zero-fill of unconstructed elements "
+        "after a throwing constructor (element memory, not table words) is not modelled: its table reads are tolerated as unmatched plain loads in fault runs",
+        "memory model: the model is sequentially consistent; memory orders of every table access are compared with the model's (a weaker order breaks the "
+        "correspondence, a stronger one is tolerated and counted)",
+        "size_t sums are assumed not to wrap (sizes <= max_size); element_address_is_addrOf / element_storage_disjoint assume size < 2^64",
+        "clear / shrink_to_fit / reserve / assignment are not concurrency-safe and not modelled"]
+    ck.trusted += ["checks/cexpr.py + checks/c11.py:translate_gtal_guard / translate_seg_guards (C++ guards -> Lean)", "harness/c11/*.cpp (observation of the real headers; "
+                   "segshim.cpp canonicalises addresses -> E.k / L<n>.k, pointer values -> A<id>[-shift])",
                    "correspondence is sampled (differential), not proved"]
     gen(ck)
     ck.lean_stage()
@@ -512,10 +1000,27 @@ def run(ck):
     run_grow(ck)
     run_shim(ck)
     run_faults(ck)
+    exe = run_seg(ck)
+    run_seg_faults(ck, exe)
+    known_keys = {k for (p_, k, _) in common.known_findings() if p_ == "C11"}
+    if any(not o["ok"] and o["name"].startswith("corr:") and "segment-table" in o["name"] or (not o["ok"] and o["name"].startswith("corr:fault runs")) for o in ck.obligations) \
+            and not any(c["key"] not in known_keys for c in ck.counterexamples):
+        found = seg_search(ck, exe, [tuple(map(tuple, sc)) and sc for sc in ck.extra.get("seg_corr_broken_scenarios", [])] + SEG_CORPUS[:3])
+        if found:
+            sc2, r2 = found
+            what = r2["mon"] or r2["crash"]
+            ck.counterexample("segtable:" + "-".join(what.split()[1:4]), "segment table: %s under schedule %s" % (what, " ".join(r2["sched"][:160])),
+                              {"engine": "E-SHIM-SEG", "harness": "harness/c11/segshim.cpp", "scenario": sc2, "schedule": r2["sched"], "monitor": what})
 
 
 def replay(ck, obj):
     r = obj["replay"]
+    if r.get("engine") == "E-SHIM-SEG":
+        exe = seg_exe()
+        env = dict(os.environ); env.update(r.get("env", {}))
+        rc, out, err = sh([exe, "replay", ",".join(r["schedule"])], input=sc_text([[tuple(o) for o in p] for p in r["scenario"]]), timeout=300, env=env)
+        print(out[-3000:])
+        return 0 if rc == 0 else 1
     if r.get("engine") == "E-SHIM":
         exe = cxx_build("C11", "shim", ["harness/c11/shim.cpp", common.SHIM_SRC, STUBS], flags=["-O1", "-g", "-fno-access-control"] + common.SHIM_FLAGS)
         text = "".join("prog " + " ".join("%s %d" % (k, a if k != "push" else 0) for k, a in p) + "\n" for p in r["scenario"])
